@@ -180,6 +180,8 @@ func requestPaths() []string {
 	add("/")
 	rec("", 3, syms)
 	rec("", 4, []string{"a", ":x", ""})
+	// segments spelled like plausible internal placeholder keys must be ordinary text
+	rec("", 3, []string{"a", ":param", ":any", "*", ":"})
 	for _, p := range []string{"", "*", "a", "a/b", "a/", ":x", "ab/c", "\x00", "/a\x00b", "/%2F", "/a b", "/é/a"} {
 		add(p)
 	}
@@ -207,7 +209,9 @@ type bench struct {
 }
 
 func newBench(specs []routeSpec) *bench {
-	b := &bench{specs: specs, names: []string{"x", "y", "z", "*", "/:any", ""}}
+	// names probed inside a matched handler; what RouteParam returns for spellings of the internal
+	// keys ("*", "/:any") is not defined by the statement and not probed
+	b := &bench{specs: specs, names: []string{"x", "y", "z", ""}}
 	for i := range specs {
 		i := i
 		b.handlers = append(b.handlers, func(s *httpd.Store) { b.observe(i, s) })
@@ -385,12 +389,6 @@ func (b *bench) checkTable(table []int, paths []string, st *stats) {
 			}
 			for _, n := range b.names {
 				w := wantParams[n]
-				if n == "/:any" {
-					w = wantAny
-				}
-				if n == "*" {
-					w = "" // "*" is not a parameter name; RouteParamAny is the accessor
-				}
 				if o.params[n] != w {
 					fail(fmt.Sprintf("RouteParam(%q)=%q, want %q", n, o.params[n], w))
 					return
